@@ -11,6 +11,55 @@ open VaxisModel.Model.Window VaxisModel.Spec.Window
 theorem measured_g (lib : Lib) (rm : Bool) (ch : Chr) : (measured lib rm ch).g = ch.g := by
   unfold measured; split <;> rfl
 
+theorem fitPen_cases (cols col row w : Int) :
+    (fitPen cols col row w = (0, row + 1) ∧ col + w > cols) ∨
+    (fitPen cols col row w = (col, row) ∧ ¬ col + w > cols) := by
+  unfold fitPen; split
+  · exact Or.inl ⟨rfl, by assumption⟩
+  · exact Or.inr ⟨rfl, by assumption⟩
+
+theorem advance_cases (cols col row w : Int) :
+    (advance cols col row w = (0, row + 1) ∧ col + w ≥ cols) ∨
+    (advance cols col row w = (col + w, row) ∧ ¬ col + w ≥ cols) := by
+  unfold advance; split
+  · exact Or.inl ⟨rfl, by assumption⟩
+  · exact Or.inr ⟨rfl, by assumption⟩
+
+/-- One placing step of the layout, in arithmetic form: where the cluster goes (`q`) and where the
+pen is afterwards (`p`). -/
+theorem step_cases (cols col row w : Int) :
+    ∃ qc qr pc pr, fitPen cols col row w = (qc, qr) ∧ advance cols qc qr w = (pc, pr) ∧
+      ((qc = 0 ∧ qr = row + 1 ∧ col + w > cols) ∨ (qc = col ∧ qr = row ∧ ¬ col + w > cols)) ∧
+      ((pc = 0 ∧ pr = qr + 1 ∧ qc + w ≥ cols) ∨ (pc = qc + w ∧ pr = qr ∧ ¬ qc + w ≥ cols)) := by
+  rcases fitPen_cases cols col row w with ⟨h1, h1'⟩ | ⟨h1, h1'⟩
+  · rcases advance_cases cols 0 (row + 1) w with ⟨h2, h2'⟩ | ⟨h2, h2'⟩
+    · exact ⟨0, row + 1, 0, row + 1 + 1, h1, h2, Or.inl ⟨rfl, rfl, h1'⟩, Or.inl ⟨rfl, rfl, h2'⟩⟩
+    · exact ⟨0, row + 1, 0 + w, row + 1, h1, h2, Or.inl ⟨rfl, rfl, h1'⟩, Or.inr ⟨rfl, rfl, h2'⟩⟩
+  · rcases advance_cases cols col row w with ⟨h2, h2'⟩ | ⟨h2, h2'⟩
+    · exact ⟨col, row, 0, row + 1, h1, h2, Or.inr ⟨rfl, rfl, h1'⟩, Or.inl ⟨rfl, rfl, h2'⟩⟩
+    · exact ⟨col, row, col + w, row, h1, h2, Or.inr ⟨rfl, rfl, h1'⟩, Or.inr ⟨rfl, rfl, h2'⟩⟩
+
+/-- The layout of a non-break cluster that is placed. -/
+theorem layout_cons_placed (cols : Int) (it : Item) (rest : List Item) (col row : Int)
+    (hb : it.brk = false) (hs : ¬ (col + it.w > cols ∧ it.w > cols)) :
+    layout cols (it :: rest) col row =
+      ({ col := (fitPen cols col row it.w).1, row := (fitPen cols col row it.w).2, cell := it.cell } ::
+        (layout cols rest (advance cols (fitPen cols col row it.w).1 (fitPen cols col row it.w).2 it.w).1
+          (advance cols (fitPen cols col row it.w).1 (fitPen cols col row it.w).2 it.w).2).1,
+       (layout cols rest (advance cols (fitPen cols col row it.w).1 (fitPen cols col row it.w).2 it.w).1
+          (advance cols (fitPen cols col row it.w).1 (fitPen cols col row it.w).2 it.w).2).2) := by
+  simp only [layout, hb, Bool.false_eq_true, if_false, hs]
+
+theorem layout_cons_skipped (cols : Int) (it : Item) (rest : List Item) (col row : Int)
+    (hb : it.brk = false) (hs : col + it.w > cols ∧ it.w > cols) :
+    layout cols (it :: rest) col row = layout cols rest col row := by
+  simp only [layout, hb, Bool.false_eq_true, if_false, hs, and_self, if_true]
+
+theorem layout_cons_brk (cols : Int) (it : Item) (rest : List Item) (col row : Int)
+    (hb : it.brk = true) :
+    layout cols (it :: rest) col row = layout cols rest 0 (row + 1) := by
+  simp only [layout, hb, if_true]
+
 /-- Every call of a layout started at row `row` is on row ≥ `row`. -/
 theorem layout_rows_ge (cols : Int) (l : List Item) (col row : Int) :
     ∀ o ∈ (layout cols l col row).1, row ≤ o.row := by
@@ -18,14 +67,19 @@ theorem layout_rows_ge (cols : Int) (l : List Item) (col row : Int) :
   | nil => intro o ho; cases ho
   | cons it rest ih =>
     intro o ho
-    simp only [layout] at ho
-    split at ho
-    · have := ih 0 (row + 1) o ho; omega
-    · rcases List.mem_cons.1 ho with rfl | h
-      · exact Int.le_refl _
-      · have := ih _ _ o h
-        simp only [advance] at this
-        split at this <;> simp at this <;> omega
+    by_cases hb : it.brk = true
+    · rw [layout_cons_brk _ _ _ _ _ hb] at ho
+      have := ih 0 (row + 1) o ho; omega
+    · have hb' : it.brk = false := by simpa using hb
+      by_cases hs : col + it.w > cols ∧ it.w > cols
+      · rw [layout_cons_skipped _ _ _ _ _ hb' hs] at ho
+        exact ih col row o ho
+      · rw [layout_cons_placed _ _ _ _ _ hb' hs] at ho
+        obtain ⟨qc, qr, pc, pr, hq, hp, hqc, hpc⟩ := step_cases cols col row it.w
+        rw [hq] at ho; simp only [hp] at ho
+        rcases List.mem_cons.1 ho with rfl | h
+        · simp only; omega
+        · have := ih _ _ o h; omega
 
 /-- `Print` = reading-order layout, minus calls below the window (`row > rows`). -/
 theorem printGo_layout (lib : Lib) (rm : Bool) (cols rows : Int) (l : List Styled) (col row : Int) :
@@ -35,32 +89,48 @@ theorem printGo_layout (lib : Lib) (rm : Bool) (cols rows : Int) (l : List Style
   | nil => exact ⟨[], rfl, fun _ h => by cases h⟩
   | cons sc rest ih =>
     obtain ⟨st, ch⟩ := sc
-    simp only [printItems, List.map_cons, layout, printGo]
-    by_cases hnl : lib.hasNL ch.g = true
-    · simp only [hnl, if_true]
-      exact ih 0 (row + 1)
-    · simp only [hnl, Bool.false_eq_true, if_false]
-      by_cases hrow : row > rows
-      · simp only [hrow, if_true, List.nil_append]
-        refine ⟨_, rfl, ?_⟩
-        intro o ho
-        rcases List.mem_cons.1 ho with rfl | h
-        · exact hrow
-        · have := layout_rows_ge _ _ _ _ o h
-          simp only [advance] at this
-          split at this <;> simp at this <;> omega
-      · simp only [hrow, if_false, advance]
-        by_cases hfull : col + (measured lib rm ch).w ≥ cols
-        · simp only [hfull, if_true]
-          obtain ⟨d, hd, hdr⟩ := ih 0 (row + 1)
-          refine ⟨d, ?_, hdr⟩
-          simp only [printItems] at hd
-          simp only [List.cons_append, hd, Item.cell, measured_g]
-        · simp only [hfull, if_false]
-          obtain ⟨d, hd, hdr⟩ := ih (col + (measured lib rm ch).w) row
-          refine ⟨d, ?_, hdr⟩
-          simp only [printItems] at hd
-          simp only [List.cons_append, hd, Item.cell, measured_g]
+    by_cases hrow : row > rows
+    · -- everything the layout writes from here on is below the window
+      have hall := layout_rows_ge cols (printItems lib rm ((st, ch) :: rest)) col row
+      by_cases hnl : lib.hasNL ch.g = true
+      · simp only [printItems, List.map_cons, layout, printGo, hnl, if_true]
+        exact ih 0 (row + 1)
+      · refine ⟨_, ?_, fun o ho => by have := hall o ho; omega⟩
+        simp only [printGo, hnl, Bool.false_eq_true, if_false, hrow, if_true, List.nil_append]
+    · simp only [printItems, List.map_cons, layout, printGo, fitPen, advance]
+      by_cases hnl : lib.hasNL ch.g = true
+      · simp only [hnl, if_true]
+        exact ih 0 (row + 1)
+      · simp only [hnl, Bool.false_eq_true, if_false, hrow]
+        by_cases hs : col + (measured lib rm ch).w > cols ∧ (measured lib rm ch).w > cols
+        · simp only [hs, and_self, if_true]
+          exact ih col row
+        · simp only [hs, if_false]
+          by_cases hfit : col + (measured lib rm ch).w > cols
+          · simp only [hfit, if_true]
+            by_cases hfull : 0 + (measured lib rm ch).w ≥ cols
+            · simp only [hfull, if_true]
+              obtain ⟨d, hd, hdr⟩ := ih 0 (row + 1 + 1)
+              refine ⟨d, ?_, hdr⟩
+              simp only [printItems] at hd
+              simp only [List.cons_append, hd, Item.cell, measured_g]
+            · simp only [hfull, if_false]
+              obtain ⟨d, hd, hdr⟩ := ih (0 + (measured lib rm ch).w) (row + 1)
+              refine ⟨d, ?_, hdr⟩
+              simp only [printItems] at hd
+              simp only [List.cons_append, hd, Item.cell, measured_g]
+          · simp only [hfit, if_false]
+            by_cases hfull : col + (measured lib rm ch).w ≥ cols
+            · simp only [hfull, if_true]
+              obtain ⟨d, hd, hdr⟩ := ih 0 (row + 1)
+              refine ⟨d, ?_, hdr⟩
+              simp only [printItems] at hd
+              simp only [List.cons_append, hd, Item.cell, measured_g]
+            · simp only [hfull, if_false]
+              obtain ⟨d, hd, hdr⟩ := ih (col + (measured lib rm ch).w) row
+              refine ⟨d, ?_, hdr⟩
+              simp only [printItems] at hd
+              simp only [List.cons_append, hd, Item.cell, measured_g]
 
 /-- Lower bound in reading order for everything a layout writes. -/
 theorem layout_ge_pen (cols : Int) (l : List Item) (col row : Int)
@@ -71,16 +141,20 @@ theorem layout_ge_pen (cols : Int) (l : List Item) (col row : Int)
   | cons it rest ih =>
     have hw' : ∀ it' ∈ rest, it'.brk = false → 0 < it'.w := fun a h => hw a (List.mem_cons_of_mem _ h)
     intro o ho
-    simp only [layout] at ho
-    split at ho
-    · have := ih 0 (row + 1) hw' o ho; omega
-    · rename_i hb
-      rcases List.mem_cons.1 ho with rfl | h
-      · right; exact ⟨rfl, Int.le_refl _⟩
-      · have hpos := hw it List.mem_cons_self (by simpa using hb)
-        have := ih _ _ hw' o h
-        simp only [advance] at this
-        split at this <;> simp at this <;> omega
+    by_cases hb : it.brk = true
+    · rw [layout_cons_brk _ _ _ _ _ hb] at ho
+      have := ih 0 (row + 1) hw' o ho; omega
+    · have hb' : it.brk = false := by simpa using hb
+      have hpos := hw it List.mem_cons_self hb'
+      by_cases hs : col + it.w > cols ∧ it.w > cols
+      · rw [layout_cons_skipped _ _ _ _ _ hb' hs] at ho
+        exact ih col row hw' o ho
+      · rw [layout_cons_placed _ _ _ _ _ hb' hs] at ho
+        obtain ⟨qc, qr, pc, pr, hq, hp, hqc, hpc⟩ := step_cases cols col row it.w
+        rw [hq] at ho; simp only [hp] at ho
+        rcases List.mem_cons.1 ho with rfl | h
+        · simp only; omega
+        · have := ih _ _ hw' o h; omega
 
 theorem layout_pairwise (cols : Int) (l : List Item) (col row : Int)
     (hw : ∀ it ∈ l, it.brk = false → 0 < it.w) :
@@ -89,27 +163,45 @@ theorem layout_pairwise (cols : Int) (l : List Item) (col row : Int)
   | nil => exact List.Pairwise.nil
   | cons it rest ih =>
     have hw' : ∀ it' ∈ rest, it'.brk = false → 0 < it'.w := fun a h => hw a (List.mem_cons_of_mem _ h)
-    simp only [layout]
-    split
-    · exact ih 0 (row + 1) hw'
-    · rename_i hb
-      have hpos := hw it List.mem_cons_self (by simpa using hb)
-      refine List.Pairwise.cons ?_ (ih _ _ hw')
-      intro o ho
-      have := layout_ge_pen cols rest _ _ hw' o ho
-      simp only [before]
-      simp only [advance] at this
-      split at this <;> simp at this <;> omega
+    by_cases hb : it.brk = true
+    · rw [layout_cons_brk _ _ _ _ _ hb]; exact ih 0 (row + 1) hw'
+    · have hb' : it.brk = false := by simpa using hb
+      have hpos := hw it List.mem_cons_self hb'
+      by_cases hs : col + it.w > cols ∧ it.w > cols
+      · rw [layout_cons_skipped _ _ _ _ _ hb' hs]; exact ih col row hw'
+      · rw [layout_cons_placed _ _ _ _ _ hb' hs]
+        obtain ⟨qc, qr, pc, pr, hq, hp, hqc, hpc⟩ := step_cases cols col row it.w
+        rw [hq]; simp only [hp]
+        refine List.Pairwise.cons ?_ (ih _ _ hw')
+        intro o ho
+        have := layout_ge_pen cols rest _ _ hw' o ho
+        simp only [before]; omega
 
-theorem layout_cells (cols : Int) (l : List Item) (col row : Int) :
-    (layout cols l col row).1.map (·.cell) = (l.filter (fun it => !it.brk)).map Item.cell := by
+/-- One call per cluster that is neither a break nor skipped; stated without positions when the pen
+column is non-negative (then "skipped" = wider than the window). -/
+theorem layout_cells (cols : Int) (l : List Item) (col row : Int) (hcol : 0 ≤ col)
+    (hw : ∀ it ∈ l, 0 ≤ it.w) :
+    (layout cols l col row).1.map (·.cell) =
+      (l.filter (fun it => !it.brk && decide (it.w ≤ cols))).map Item.cell := by
   induction l generalizing col row with
   | nil => rfl
   | cons it rest ih =>
-    simp only [layout]
-    split
-    · rename_i hb; simp [hb, ih]
-    · rename_i hb; simp [hb, ih]
+    have hw' : ∀ it' ∈ rest, 0 ≤ it'.w := fun a h => hw a (List.mem_cons_of_mem _ h)
+    have h0 := hw it List.mem_cons_self
+    by_cases hb : it.brk = true
+    · rw [layout_cons_brk _ _ _ _ _ hb, ih 0 (row + 1) (Int.le_refl _) hw']
+      simp [hb]
+    · have hb' : it.brk = false := by simpa using hb
+      by_cases hs : col + it.w > cols ∧ it.w > cols
+      · rw [layout_cons_skipped _ _ _ _ _ hb' hs, ih col row hcol hw']
+        have : ¬ it.w ≤ cols := by omega
+        simp [hb', this]
+      · rw [layout_cons_placed _ _ _ _ _ hb' hs]
+        obtain ⟨qc, qr, pc, pr, hq, hp, hqc, hpc⟩ := step_cases cols col row it.w
+        rw [hq]; simp only [hp]
+        have hle : it.w ≤ cols := by omega
+        rw [List.map_cons, ih pc pr (by omega) hw']
+        simp [hb', hle]
 
 theorem lnGo_layout (lib : Lib) (rm : Bool) (cols row : Int) (l : List Styled) (col : Int) :
     lnGo lib rm cols row l col = layoutLine cols row (lineItems lib rm l) col := by
@@ -170,13 +262,15 @@ theorem layout_end_ge (cols : Int) (l : List Item) (col row : Int) :
   induction l generalizing col row with
   | nil => exact Int.le_refl _
   | cons it rest ih =>
-    simp only [layout]
-    split
-    · have := ih 0 (row + 1); omega
-    · simp only [advance]
-      by_cases hf : col + it.w ≥ cols
-      · simp only [hf, if_true]; have := ih 0 (row + 1); omega
-      · simp only [hf, if_false]; have := ih (col + it.w) row; omega
+    by_cases hb : it.brk = true
+    · rw [layout_cons_brk _ _ _ _ _ hb]; have := ih 0 (row + 1); omega
+    · have hb' : it.brk = false := by simpa using hb
+      by_cases hs : col + it.w > cols ∧ it.w > cols
+      · rw [layout_cons_skipped _ _ _ _ _ hb' hs]; exact ih col row
+      · rw [layout_cons_placed _ _ _ _ _ hb' hs]
+        obtain ⟨qc, qr, pc, pr, hq, hp, hqc, hpc⟩ := step_cases cols col row it.w
+        rw [hq]; simp only [hp]
+        have := ih pc pr; omega
 
 theorem layoutWrap_rows_ge (cols : Int) (L : List (List Item)) (col row : Int) :
     (∀ o ∈ (layoutWrap cols L col row).1, row ≤ o.row) ∧ row ≤ (layoutWrap cols L col row).2.2 := by
@@ -228,12 +322,20 @@ theorem wrapChars_layout (lib : Lib) (rm : Bool) (cols : Int) (st : Nat) (chars 
   induction chars generalizing col row with
   | nil => rfl
   | cons ch rest ih =>
-    simp only [List.map_cons, wrapChars, layout, measured_g, advance]
+    simp only [List.map_cons, wrapChars, layout, measured_g, advance, fitPen]
     split
     · exact ih 0 (row + 1)
     · split
-      · simp only [ih, Item.cell]
-      · simp only [ih, Item.cell]
+      · exact ih col row
+      · by_cases hfit : col + (measured lib rm ch).w > cols
+        · simp only [hfit, if_true]
+          by_cases hfull : 0 + (measured lib rm ch).w ≥ cols
+          · simp only [hfull, if_true, ih, Item.cell]
+          · simp only [hfull, if_false, ih, Item.cell]
+        · simp only [hfit, if_false]
+          by_cases hfull : col + (measured lib rm ch).w ≥ cols
+          · simp only [hfull, if_true, ih, Item.cell]
+          · simp only [hfull, if_false, ih, Item.cell]
 
 theorem sumW_totalW (lib : Lib) (rm : Bool) (st : Nat) (chars : List Chr) :
     sumW (chars.map (measured lib rm)) =
@@ -328,19 +430,18 @@ theorem layout_pen_mono (cols : Int) (l : List Item) (col row : Int)
   | nil => exact Or.inr ⟨rfl, Int.le_refl _⟩
   | cons it rest ih =>
     have hw' : ∀ it' ∈ rest, it'.brk = false → 0 < it'.w := fun a h => hw a (List.mem_cons_of_mem _ h)
-    simp only [layout]
-    split
-    · have := ih 0 (row + 1) hw'
+    by_cases hb : it.brk = true
+    · rw [layout_cons_brk _ _ _ _ _ hb]
+      have := ih 0 (row + 1) hw'
       unfold penLe at this ⊢; omega
-    · rename_i hb
-      have hpos := hw it List.mem_cons_self (by simpa using hb)
-      simp only [advance]
-      by_cases hf : col + it.w ≥ cols
-      · simp only [hf, if_true]
-        have := ih 0 (row + 1) hw'
-        unfold penLe at this ⊢; omega
-      · simp only [hf, if_false]
-        have := ih (col + it.w) row hw'
+    · have hb' : it.brk = false := by simpa using hb
+      have hpos := hw it List.mem_cons_self hb'
+      by_cases hs : col + it.w > cols ∧ it.w > cols
+      · rw [layout_cons_skipped _ _ _ _ _ hb' hs]; exact ih col row hw'
+      · rw [layout_cons_placed _ _ _ _ _ hb' hs]
+        obtain ⟨qc, qr, pc, pr, hq, hp, hqc, hpc⟩ := step_cases cols col row it.w
+        rw [hq]; simp only [hp]
+        have := ih pc pr hw'
         unfold penLe at this ⊢; omega
 
 theorem layout_lt_end (cols : Int) (l : List Item) (col row : Int)
@@ -353,26 +454,21 @@ theorem layout_lt_end (cols : Int) (l : List Item) (col row : Int)
   | cons it rest ih =>
     have hw' : ∀ it' ∈ rest, it'.brk = false → 0 < it'.w := fun a h => hw a (List.mem_cons_of_mem _ h)
     intro o ho
-    simp only [layout] at ho ⊢
-    split at ho
-    · rename_i hb
-      simp only [hb, if_true]
+    by_cases hb : it.brk = true
+    · rw [layout_cons_brk _ _ _ _ _ hb] at ho ⊢
       exact ih 0 (row + 1) hw' o ho
-    · rename_i hb
-      simp only [hb, Bool.false_eq_true, if_false]
-      have hpos := hw it List.mem_cons_self (by simpa using hb)
-      simp only [advance] at ho ⊢
-      by_cases hf : col + it.w ≥ cols
-      · simp only [hf, if_true] at ho ⊢
+    · have hb' : it.brk = false := by simpa using hb
+      have hpos := hw it List.mem_cons_self hb'
+      by_cases hs : col + it.w > cols ∧ it.w > cols
+      · rw [layout_cons_skipped _ _ _ _ _ hb' hs] at ho ⊢
+        exact ih col row hw' o ho
+      · rw [layout_cons_placed _ _ _ _ _ hb' hs] at ho ⊢
+        obtain ⟨qc, qr, pc, pr, hq, hp, hqc, hpc⟩ := step_cases cols col row it.w
+        rw [hq] at ho ⊢; simp only [hp] at ho ⊢
         rcases List.mem_cons.1 ho with rfl | h
-        · have := layout_pen_mono cols rest 0 (row + 1) hw'
+        · have := layout_pen_mono cols rest pc pr hw'
           unfold penLe at this; simp only; omega
-        · exact ih 0 (row + 1) hw' o h
-      · simp only [hf, if_false] at ho ⊢
-        rcases List.mem_cons.1 ho with rfl | h
-        · have := layout_pen_mono cols rest (col + it.w) row hw'
-          unfold penLe at this; simp only; omega
-        · exact ih (col + it.w) row hw' o h
+        · exact ih pc pr hw' o h
 
 theorem layoutWrap_ge_pen (cols : Int) (L : List (List Item)) (col row : Int)
     (hw : ∀ seg ∈ L, ∀ it ∈ seg, it.brk = false → 0 < it.w) :
@@ -414,5 +510,88 @@ theorem layoutWrap_pairwise (cols : Int) (L : List (List Item)) (col row : Int)
     have h2 := (layoutWrap_ge_pen cols rest _ _ hrest).1 b hb
     unfold penLe at h2
     simp only [before]; omega
+
+/-! ### No cluster extends beyond the window's row (F111 repaired) -/
+
+/-- Everything the reading-order layout writes lies, continuation columns included, left of the
+right edge: `col + width ≤ cols`.  No hypothesis on widths or on the pen. -/
+theorem layout_fits (cols : Int) (l : List Item) (col row : Int) :
+    ∀ o ∈ (layout cols l col row).1, o.col + o.cell.w ≤ cols := by
+  induction l generalizing col row with
+  | nil => intro o ho; cases ho
+  | cons it rest ih =>
+    intro o ho
+    by_cases hb : it.brk = true
+    · rw [layout_cons_brk _ _ _ _ _ hb] at ho; exact ih 0 (row + 1) o ho
+    · have hb' : it.brk = false := by simpa using hb
+      by_cases hs : col + it.w > cols ∧ it.w > cols
+      · rw [layout_cons_skipped _ _ _ _ _ hb' hs] at ho; exact ih col row o ho
+      · rw [layout_cons_placed _ _ _ _ _ hb' hs] at ho
+        obtain ⟨qc, qr, pc, pr, hq, hp, hqc, hpc⟩ := step_cases cols col row it.w
+        rw [hq] at ho; simp only [hp] at ho
+        rcases List.mem_cons.1 ho with rfl | h
+        · simp only [Item.cell]; omega
+        · exact ih pc pr o h
+
+/-- With non-negative widths and a non-negative pen column, every write is at a column ≥ 0. -/
+theorem layout_col_nonneg (cols : Int) (l : List Item) (col row : Int) (hcol : 0 ≤ col)
+    (hw : ∀ it ∈ l, 0 ≤ it.w) : ∀ o ∈ (layout cols l col row).1, 0 ≤ o.col := by
+  induction l generalizing col row with
+  | nil => intro o ho; cases ho
+  | cons it rest ih =>
+    have hw' : ∀ it' ∈ rest, 0 ≤ it'.w := fun a h => hw a (List.mem_cons_of_mem _ h)
+    have h0 := hw it List.mem_cons_self
+    intro o ho
+    by_cases hb : it.brk = true
+    · rw [layout_cons_brk _ _ _ _ _ hb] at ho; exact ih 0 (row + 1) (Int.le_refl _) hw' o ho
+    · have hb' : it.brk = false := by simpa using hb
+      by_cases hs : col + it.w > cols ∧ it.w > cols
+      · rw [layout_cons_skipped _ _ _ _ _ hb' hs] at ho; exact ih col row hcol hw' o ho
+      · rw [layout_cons_placed _ _ _ _ _ hb' hs] at ho
+        obtain ⟨qc, qr, pc, pr, hq, hp, hqc, hpc⟩ := step_cases cols col row it.w
+        rw [hq] at ho; simp only [hp] at ho
+        rcases List.mem_cons.1 ho with rfl | h
+        · simp only; omega
+        · exact ih pc pr (by omega) hw' o h
+
+theorem layoutWrap_fits (cols : Int) (L : List (List Item)) (col row : Int) :
+    ∀ o ∈ (layoutWrap cols L col row).1, o.col + o.cell.w ≤ cols := by
+  induction L generalizing col row with
+  | nil => intro o ho; cases ho
+  | cons seg rest ih =>
+    intro o ho
+    simp only [layoutWrap] at ho
+    rcases List.mem_append.1 ho with h | h
+    · exact layout_fits cols seg _ _ o h
+    · exact ih _ _ o h
+
+theorem layoutLine_fits (cols row : Int) (l : List Item) (col : Int) :
+    ∀ o ∈ layoutLine cols row l col, o.col + o.cell.w ≤ cols := by
+  induction l generalizing col with
+  | nil => intro o ho; cases ho
+  | cons it rest ih =>
+    intro o ho
+    simp only [layoutLine] at ho
+    split at ho
+    · cases ho
+    · rcases List.mem_cons.1 ho with rfl | h
+      · simp only [Item.cell]; omega
+      · exact ih _ o h
+
+/-- `PrintTruncate`: a call either fits or is at a column the window itself rejects (the ellipsis
+in a window without columns). -/
+theorem layoutTrunc_fits (cols row : Int) (l : List Item) (col : Int) :
+    ∀ o ∈ layoutTrunc cols row l col, cols ≤ o.col ∨ o.col + o.cell.w ≤ cols := by
+  induction l generalizing col with
+  | nil => intro o ho; cases ho
+  | cons it rest ih =>
+    intro o ho
+    simp only [layoutTrunc] at ho
+    split at ho
+    · rcases List.mem_singleton.1 ho with rfl
+      simp only; omega
+    · rcases List.mem_cons.1 ho with rfl | h
+      · simp only [Item.cell]; omega
+      · exact ih _ o h
 
 end VaxisModel.Lemmas.WindowText
